@@ -223,3 +223,20 @@ ADDENDA5 = {
 }
 for _k, _t in ADDENDA5.items():
     CLAIMS[_k]["text"] = CLAIMS[_k]["text"] + " " + _t
+
+ADDENDA6 = {
+ "C01": "Also: the whole-file write helper sets no attributes; the flag table classifies kind tests of the looked-up record.",
+ "C02": "Also: Truncate reaches no O_APPEND test; positioned methods succeed only after the offset was examined.",
+ "C03": "Also: a record is created only on the ErrNotExist edge of the look-up (not on any failed look-up).",
+ "C07": "Also: a view built without a root only where the receiver has none; helpers ask for the own interface before MountFS.",
+ "C09": "Also: separator parameters are used, no literal backslash; every path field of a translated os error goes through relPath.",
+ "C10": "Also: directory pages are cut from the source listing of the same call.",
+ "C12": "Also: a directory entry's Mkdir follows the creation of its parents.",
+ "C13": "Also: no tar function returns holding a mutex; pool buffers are allocated only after their slot was reserved.",
+ "C15": "Also: handles never slice a blob's Bytes() with computed bounds; transaction operations never release the store mutex.",
+ "C16": "Also: DirEntry.Type() is type bits only; the cache lists the source in every ReadDir call.",
+ "C17": "Also: the os-backed handle returns the errors of its *os.File calls.",
+ "C20": "Also: scenarios skip for ErrNotImplemented only; read-back buffers are freshly made.",
+}
+for _k, _t in ADDENDA6.items():
+    CLAIMS[_k]["text"] = CLAIMS[_k]["text"] + " " + _t
